@@ -78,6 +78,10 @@ impl JSON {
 
             _line = boxed_line.unwrap();
             let buffer_filtered_control_chars = StringExt::filter_ascii_control_characters(_line.as_str());
+            if properties.len() == 0 && buffer_filtered_control_chars == "}" {
+                // object without properties, as produced by to_json_string for a struct with no field set
+                return Ok(properties);
+            }
             if buffer_filtered_control_chars != "\"" {
                 let message = format!("provided json is not valid");
                 return Err(message);
